@@ -256,6 +256,51 @@ def gen_ricc(rng, kind, ns, nc):
     return None
 
 
+
+# ------------------------------------------------------------------ dtype / argument forms
+INT_FORMS = ("int64", "int32", "list", "float32")
+
+
+def as_form(M, form):
+    """integer-valued matrix M (list of lists) in the requested argument form"""
+    ints = [[int(x) for x in row] for row in M]
+    if form == "int64":
+        return np.array(ints, dtype=np.int64)
+    if form == "int32":
+        return np.array(ints, dtype=np.int32)
+    if form == "list":
+        return ints
+    if form == "float32":
+        return np.array(ints, dtype=np.float32)
+    if form == "scalar":
+        return ints[0][0]
+    return np.array(ints, dtype=float)
+
+
+def gen_ricc_int(rng, ns, nc):
+    """integer-valued (A,B,Q,R,N) inside the property's guard"""
+    for _ in range(300):
+        A = [[Fraction(rng.randint(-2, 2)) for _ in range(ns)] for _ in range(ns)]
+        B = [[Fraction(rng.randint(-2, 2)) for _ in range(nc)] for _ in range(ns)]
+        W = [[Fraction(rng.randint(-2, 2)) for _ in range(ns + nc)] for _ in range(rng.randint(1, ns + nc))]
+        G = [[sum(W[l][i] * W[l][j] for l in range(len(W))) for j in range(ns + nc)] for i in range(ns + nc)]
+        Q = [row[:ns] for row in G[:ns]]; N = [row[:ns] for row in G[ns:]]; R = [row[ns:] for row in G[ns:]]
+        for i in range(nc):
+            R[i][i] += rng.choice([1, 2])
+        An, Bn, Qn, Rn, Nn = npf(A), npf(B), npf(Q), npf(R), npf(N)
+        if np.linalg.cond(Rn) > 1e3 or spec_radius(An) > 2.5:
+            continue
+        Ab = An - Bn @ np.linalg.solve(Rn, Nn)
+        Qb = Qn - Nn.T @ np.linalg.solve(Rn, Nn); Qb = (Qb + Qb.T) / 2
+        w, V = np.linalg.eigh(Qb)
+        if w.min() < -1e-9:
+            continue
+        C = (V * np.sqrt(np.clip(w, 0, None))).T
+        if pbh_margin(An, Bn, rows=False) < 1e-1 or pbh_margin(Ab, C, rows=True) < 1e-1:
+            continue
+        return A, B, Q, R, N
+    return None
+
 # ------------------------------------------------------------------ main
 def run(ctx):
     import quantecon as qe
@@ -315,6 +360,47 @@ def run(ctx):
             worst["lyap_agree"] = max(worst["lyap_agree"], ag)
             if not ag <= TOL_AGREE:
                 ctx.fail("lyap_methods_disagree", "doubling and bartels-stewart differ", inp, [np.asarray(X).tolist(), Xb.tolist()], "relative difference %.3g" % ag)
+    # ---- dtype / argument forms: integer-dtype, nested-list, float32 and scalar arguments must give the float64 answer
+    for t in range(36 if thorough else 14):
+        variant = t % 3
+        n = rng.randint(1, 4)
+        fa = rng.choice(INT_FORMS); fb = rng.choice(INT_FORMS)
+        if variant == 0:     # integer (nilpotent, hence stable) A in an integer form, REAL-valued float64 B
+            A, _B = gen_lyap(rng, "nilpotent_int", n); B = rnd_mat(rng, n, n, lo=-9, hi=9, dens=(2, 3, 4, 5, 8))
+            if n == 1 and rng.random() < 0.5:
+                fa = "scalar"
+            Aarg, Barg, fb = as_form(A, fa), (np.array(fl(B)) if fa != "scalar" else fl(B)[0][0]), "float64"
+        elif variant == 1:   # float64 stable A, integer-valued B in an integer form
+            A, _B = gen_lyap(rng, "random", n); B = [[Fraction(rng.randint(-5, 5)) for _ in range(n)] for _ in range(n)]
+            Aarg, Barg, fa = np.array(fl(A)), as_form(B, fb), "float64"
+        else:                # both integer-valued, both in integer forms
+            A, B = gen_lyap(rng, "nilpotent_int", n)
+            if n == 1 and rng.random() < 0.5:
+                fa = fb = "scalar"
+            Aarg, Barg = as_form(A, fa), as_form(B, fb)
+        Af, Bf = fl(A), fl(B)
+        inp = {"fn": "solve_discrete_lyapunov", "kind": "dtype_forms", "n": n, "A": A, "B": B, "form_A": fa, "form_B": fb, "max_it": 50}
+        ctx.count("lyap:forms=%s/%s" % (fa, fb)); ctx.count("lyap:kind=dtype_forms")
+        ctx.case(("lyap_forms", n, str(A), str(B), fa, fb), nontrivial=True)
+        ref = me.solve_discrete_lyapunov(np.array(Af), np.array(Bf))
+        for method in ("doubling", "bartels-stewart"):
+            minp = dict(inp, method=method)
+            if method == "bartels-stewart" and "scalar" in (fa, fb):
+                # the bartels-stewart branch hands its arguments to SciPy unchanged, which does not accept 0-d input
+                # (true of the pinned tree for float scalars as well): scalars are an accepted form of the doubling branch only
+                ctx.count("observation:bartels-stewart_does_not_accept_scalars"); continue
+            try:
+                X = np.atleast_2d(np.asarray(me.solve_discrete_lyapunov(Aarg, Barg, method=method), dtype=float))
+            except Exception as e:
+                ctx.fail("lyap_dtype_forms", "%s raises for %s A / %s B" % (method, fa, fb), minp, repr(e), ref.tolist()); continue
+            dev = float(np.max(np.abs(X - ref)) / (1 + np.max(np.abs(ref)))) if X.shape == ref.shape else float("inf")
+            r = lyap_oracle(Af, Bf, X) if X.shape == ref.shape else float("inf")
+            if dev > 1e-9 or not r <= (1e-6 if "float32" in (fa, fb) else TOL_RES_LYAP):
+                ctx.fail("lyap_dtype_forms", "%s with %s A / %s B does not solve the equation of the values passed (float64 run differs by %.3g, residual %.3g)"
+                         % (method, fa, fb, dev, r), minp, X.tolist(), ref.tolist())
+            if method == "doubling" and X.shape == ref.shape:
+                cases.append(tup(zl(50), natlit(n), flist2(Af), flist2(Bf), blit(True), flist2(X.tolist())))
+                meta.append(inp)
     # exact iteration cap: smallest max_it that does not raise, on systems whose arithmetic is the same in BLAS and
     # in the model (1x1 or integer nilpotent), then max_it = that, one less, one more
     for t in range(16 if thorough else 8):
@@ -491,6 +577,47 @@ def run(ctx):
                 ctx.fail("ricc_psd", "%s: X is not positive semidefinite" % method, minp, Xm.tolist(), "min eigenvalue (relative) %.3g" % o["mineig"])
             if not o["rho"] < 1:
                 ctx.fail("ricc_not_stabilising", "%s: closed loop spectral radius >= 1" % method, minp, Xm.tolist(), "rho = %.6g" % o["rho"])
+    # ---- dtype / argument forms for the Riccati solver (integer-valued data, every argument in its own form)
+    for t in range(30 if thorough else 10):
+        ns, nc = rng.randint(1, 3), rng.randint(1, 2)
+        g = gen_ricc_int(rng, ns, nc)
+        if g is None:
+            ctx.count("ricc:forms_generator_gave_up"); continue
+        scal = ns == 1 and nc == 1 and rng.random() < 0.4
+        forms = ["scalar"] * 5 if scal else [rng.choice(INT_FORMS + ("float64",)) for _ in range(5)]
+        if all(f == "float64" for f in forms):
+            forms[rng.randrange(5)] = "int64"
+        args = [as_form(M, f) for M, f in zip(g, forms)]
+        fargs = [np.array(fl(M)) for M in g]
+        inp = {"fn": "solve_discrete_riccati", "kind": "dtype_forms", "ns": ns, "nc": nc, "A": g[0], "B": g[1], "Q": g[2], "R": g[3], "N": g[4],
+               "forms": forms, "N_passed": True}
+        ctx.count("ricc:kind=dtype_forms"); ctx.count("ricc:forms_has_float32=%s" % ("float32" in forms))
+        ctx.case(("ricc_forms", str(g), str(forms)), nontrivial=True)
+        tolf = 1e-5 if "float32" in forms else 1e-9
+        for method in ("doubling", "qz"):
+            minp = dict(inp, method=method)
+            try:
+                ref = np.atleast_2d(me.solve_discrete_riccati(*fargs, method=method))
+            except Exception:
+                ctx.count("ricc:forms_float64_run_raised"); continue
+            try:
+                if method == "doubling":
+                    status, X, rec = call_riccati(me, *args)
+                    if status != "ok":
+                        raise ValueError(status)
+                else:
+                    X = me.solve_discrete_riccati(*args, method=method)
+                X = np.atleast_2d(np.asarray(X, dtype=float))
+            except Exception as e:
+                ctx.fail("ricc_dtype_forms", "%s raises for argument forms %s" % (method, forms), minp, repr(e), ref.tolist()); continue
+            dev = float(np.max(np.abs(X - ref)) / (1 + np.max(np.abs(ref)))) if X.shape == ref.shape else float("inf")
+            o = ricc_oracle(*[fl(M) for M in g], X) if X.shape == ref.shape else {"res": float("inf")}
+            if dev > tolf or not o["res"] <= (1e-5 if "float32" in forms else TOL_RES):
+                ctx.fail("ricc_dtype_forms", "%s with argument forms %s does not solve the equation of the values passed (float64 run differs by %.3g, residual %.3g)"
+                         % (method, forms, dev, o["res"]), minp, X.tolist(), ref.tolist())
+            if method == "doubling" and "float32" not in forms and rec.get("gamma") is not None and X.shape == ref.shape:
+                cases.append(tup(natlit(ns), natlit(nc), f1(rec["gamma"]), *[flist2(fl(M)) for M in g], zl(0), flist2(X.tolist())))
+                meta.append(dict(inp, gamma=rec["gamma"]))
     ctx.count("ricc:gamma_equals_independent_recomputation", n_gamma_same)
     PRE2 = PRE + "Definition RTOL : float := %s.\nDefinition RTOLQ : Q := %s.\nDefinition RMAX : Z := %s.\n" % (
         f1(ricc_tol), qlit(frac(ricc_tol)), zl(ricc_maxit))
